@@ -24,6 +24,21 @@ pub use self::fr::{Fr, FrRepr};
 pub(crate) use self::isogeny::IsogenyMap;
 pub(crate) use self::osswu_map::OSSWUMap;
 
+/// Re-exports for the verification harness (/verif); compiled only with `--cfg pairing_plus_verif`.
+#[cfg(pairing_plus_verif)]
+pub mod verif_hooks {
+    pub use super::cofactor::ClearH;
+    pub use super::isogeny::IsogenyMap;
+    pub use super::osswu_map::OSSWUMap;
+    pub use super::osswu_map::{chain_p2m9div16, chain_pm3div4};
+    use CurveProjective;
+
+    /// `chain_z` of cofactor.rs
+    pub fn chain_z<PtT: CurveProjective>(out: &mut PtT, inp: &PtT) {
+        super::cofactor::chain_z(out, inp)
+    }
+}
+
 pub mod transmute {
     pub use super::ec::g1::transmute_affine as g1_affine;
     pub use super::ec::g1::transmute_projective as g1_projective;
